@@ -141,10 +141,16 @@ def run_case(case):
     evals = 0
     rs = cm.rshells(shells)
     V = gto.point_charge(rs, pts, -np.ones(len(pts)))  # + integral of phi_a phi_b / |r - R|
+    # yardstick of the electronic term: C03 states the accuracy of an integral V_ab relative to sqrt(V_aa V_bb), so that is the
+    # magnitude each gamma_ab V_ab is charged with (a hollow density matrix picks only off-diagonal integrals, which may be
+    # orders of magnitude below it: FA28); through a transformation the magnitudes are carried by |T|
+    dgV = np.abs(np.einsum("aan->an", V))
+    scV = np.sqrt(dgV[:, None, :] * dgV[None, :, :])
     if T is not None:
         V = np.einsum("ia,jb,abn->ijn", T, T, V)
+        scV = np.einsum("ia,jb,abn->ijn", np.abs(T), np.abs(T), scV)
     elec = np.einsum("ij,ijn->n", dm, V)
-    elec_sc = np.einsum("ij,ijn->n", np.abs(dm), np.abs(V))
+    elec_sc = np.einsum("ij,ijn->n", np.abs(dm), scV)
     d = np.sqrt(((pts[:, None, :] - nuc[None, :, :]) ** 2).sum(axis=2))
     rkind = cm.REPS[(len(pts) + len(Z)) % len(cm.REPS)]  # in-memory representation of the array arguments
     kw = {} if T is None else {"transform": cm.rep(T, rkind)}
